@@ -1,11 +1,12 @@
 // C17 — Network input is authenticated or rejected, and never fatal.
 //
-// Three layers, each with round-trip / tamper-detection / totality /
+// Four layers, each with round-trip / tamper-detection / totality /
 // allocation-bound oracles:
 //
 //	discv4_test.go    discovery datagrams (decodePacket, handlePacket on a live table)
 //	rlpx_test.go      RLPx encryption handshake and framing over an in-memory, tamperable stream
 //	subproto_test.go  aqua sub-protocol messages into ProtocolManager.SubProtocols[i].Run
+//	server_test.go    p2p.Server as the connection handler: rejected / dying inbound connections, base-protocol messages, Stop
 package c17
 
 import (
@@ -45,18 +46,38 @@ func TestMain(m *testing.M) {
 		"status:wrong-network", "status:wrong-genesis", "status:wrong-version", "status:oversize",
 		"headers-exact", "bodies-exact", "nodedata-preimages", "receipts-answered",
 	)
+	ev.MustHit(
+		// layer 2, round 3: delivered payloads held across several later reads on the same connection
+		"held-across:1", "held-across:2", "held-across:3", "held-across:4",
+		// layer 4: p2p.Server as the connection handler
+		"srv:legit-after-1+offenders", "srv:offenders>=slots", "srv:netrestrict", "srv:offender-outside-netrestrict",
+		"srv:offender-lingers", "srv:offender-queued-behind-full-slots", "srv:legit-after-session", "srv:stop-returned",
+		"srv:offender:connect-close", "srv:offender:attacker-auth", "srv:offender:truncated-auth", "srv:offender:silent",
+		"srv:offender:hs-close", "srv:offender:hs-disc", "srv:offender:hs-wrong-id", "srv:offender:hs-zero-id", "srv:offender:hs-no-caps",
+		"srv:offender:hs-garbage", "srv:offender:hs-wrong-code", "srv:offender:hs-too-big", "srv:offender:hs-short-id", "srv:offender:peer-drop",
+		"srv:session-stays-served", "srv:session-closed-by-node", "srv:base:ping", "srv:base:pong", "srv:base:other-code",
+		"srv:code-outside-protocols", "srv:disc:list1", "srv:disc-reason:0-16", "srv:disc-reason:18..2^63-1", "srv:disc-reason:undecodable",
+		"srv:hs-disc-reason:0-16", "srv:hs-disc-reason:18..2^63-1", "srv:disc-enumerated",
+		"srv:read-loop-frame-while-handler-holds", "srv:frames-while-handler-holds:2", "srv:peer-snappy:false", "srv:peer-snappy:true", "srv:log-formats-all",
+	)
 	ev.MustHitThorough("size:>64KiB", "size:~16MiB", "write-refused-too-large", "fetch:valid-block-imported")
 	ev.Main(m, ev.Config{
 		Property: "C17",
 		Level:    "exploration",
-		Rule: "three layers. (1) discv4: one case = one datagram (<=1280 B) handed to decodePacket and to handlePacket of a live table (aqua and netcompat mode) as coming from one of 6 attacker keys (3 bonded with the table); " +
+		Rule: "four layers. (1) discv4: one case = one datagram (<=1280 B) handed to decodePacket and to handlePacket of a live table (aqua and netcompat mode) as coming from one of 6 attacker keys (3 bonded with the table); " +
 			"classes: valid packets of the 4 types built by an independent encoder (refrlp + btcec + keccak), one-byte mutations in hash/sig/type/payload, re-hashed signature tampering, and correctly hashed+signed bodies that are mutated / truncated (also every length, enumerated) / random / deeply nested / length bombs / 1-6 bytes short / of unknown type / of the other mode, plus raw bytes; " +
 			"non-trivial = the datagram passes the reference's hash+signature check, i.e. reaches payload decoding; distinct by mode + signed body. " +
-			"(2) RLPx: one case = one session over an in-memory link: generated key pairs, encryption handshake, 1-6 messages (codes 0..2^64-1, sizes 0..64 KiB quick / ..16 MiB-1 thorough, snappy on/off, both directions), " +
+			"(2) RLPx: one case = one session over an in-memory link: generated key pairs, encryption handshake, 1-8 messages (codes 0..2^64-1, sizes 0..64 KiB quick / ..16 MiB-1 thorough, snappy on/off, both directions), " +
 			"with one of: nothing / one byte flipped, dropped or inserted at a generated position of one frame (header, header MAC, body, frame MAC) / one byte of a handshake packet tampered / a dial to the wrong identity / a hostile snappy length; " +
 			"plus attacker-chosen bytes presented as auth or auth-response packet (random, size-prefix edge cases, correctly ECIES-sealed garbage and hostile RLP); every session is non-trivial; distinct by scenario, keys and message trace. " +
+			"a delivered message whose payload the reader has not consumed yet is held across 1-4 later reads on the same connection (frames come in runs of one direction, small and large mixed) and must then still be what was written; " +
 			"(3) sub-protocol: one case = one peer session on a ProtocolManager with a 9-block chain: status handshake (valid or 8 invalid kinds) then 1-6 messages over all codes 0x00-0x10 from {valid, one field mutated (13 mutations), truncated <=64, random, nested/bombs, trailing bytes, declared size > 10 MiB}, " +
-			"and announce/fetch exchanges in which the peer serves spoiled headers, uncles and bodies to the block fetcher; after every message the peer is either dropped with an error or a liveness probe is answered; every session is non-trivial; distinct by message trace",
+			"and announce/fetch exchanges in which the peer serves spoiled headers, uncles and bodies to the block fetcher; after every message the peer is either dropped with an error or a liveness probe is answered; every session is non-trivial; distinct by message trace. " +
+			"(4) p2p.Server: one case = one real Server on 127.0.0.1:0 (real listener, real RLPx transport; 1/2/3/5 handshake slots, with or without NetRestrict=127.0.0.1/32, with or without a logger that formats every record) and, in order: " +
+			"0-12 inbound connections that are rejected or die early, from 127.0.0.1 / 127.0.0.2 / 127.0.0.77 (connect-and-close, silent, attacker bytes as auth packet incl. correctly ECIES-sealed ones, a real auth packet cut at a generated length, a completed encryption handshake followed by close / a disconnect message / a handshake with a wrong, zero or short id / without a matching capability / garbage / another code / more than 2 KiB, a complete peer that drops dead; some stay open while later ones arrive, also more than there are slots); " +
+			"then a legitimate peer (devp2p v4 / v5+snappy, any name, extra capabilities and fields) that must get both handshakes and a sub-protocol message echoed; then 0-8 messages on its session from {sub-protocol message 0 B-64 KiB which the node's handler keeps unconsumed for up to 0-3 further messages, ping, pong, other base-protocol codes with any payload up to 64 KiB, disconnect with reasons 0..2^64-1 in regular and 10 malformed encodings, a code outside every protocol} plus up to 2 frames behind a final one; " +
+			"every message the node's handler consumed is echoed with its declared size and must equal what was written (in order), the connection always ends up either served (its last message echoed) or closed by the node and never silent, a session of nothing but sub-protocol messages and canonical pings / pongs must be served (other base-protocol traffic may be rejected by closing; pongs are counted, not demanded), a session that was ended is closed by the node; then a second legitimate peer must be served and Server.Stop must return; " +
+			"plus, enumerated, the regular disconnect message for 32 reason values (all defined ones, 16/17/18, byte/word edges, 2^63, 2^64-1) before the protocol handshake and from a running peer; every case is non-trivial; distinct by the trace of connections and messages",
 		Assumptions: []string{
 			"the reference envelope codec (harness/c17/refdisc.go: btcec signatures, x/crypto keccak, refrlp) is a correct reading of the discv4 wire format; it shares no code with p2p/discover, crypto or rlp",
 			"expiration is judged with a 30 s margin around the wall clock (the code under test reads the clock)",
@@ -65,6 +86,9 @@ func TestMain(m *testing.M) {
 			"the in-memory link delivers an i/o timeout as soon as every running party is blocked on an empty buffer (virtual deadlines instead of the 5 s / 30 s real ones)",
 			"sub-protocol messages travel over p2p.MsgPipe with Size equal to the real payload length (as RLPx framing guarantees); a declared size > 10 MiB is backed by a lazy reader of that many bytes",
 			"a panic in a goroutine owned by the node (fetcher, downloader, tx pool, discovery loops) kills the test process; the case in flight is in the file 'inflight' of the working directory and the driver reports the crash log",
+			"p2p.Server cases use real loopback TCP: a step that takes milliseconds (the node answering an auth packet or a protocol handshake, echoing a message, closing a connection it has given up, Stop returning) is a violation only when it has not happened after 20 s; connections that the generator leaves open are closed before a step that needs an answer when they could occupy every slot (otherwise the node's own 5 s handshake timeout would be waited for; that is generated in the thorough tier only, with at most as many stalled connections as slots)",
+			"the sub-protocol the test Server runs is an echo handler written like the node's own handlers (reads from rw, consumes every payload completely); message code k lets it go back to ReadMsg with up to k earlier messages not yet consumed, the deterministic stand-in for a handler that is still busy with a message while Peer.readLoop reads the following frames",
+			"a panic in a goroutine of the Server (listenLoop, SetupConn, run, runPeer, Peer.readLoop) kills the test process and is reported by the driver as a crash; the listed finding p2p/disc-reason-out-of-table is stepped around exactly: a disconnect payload whose first list element is a canonical integer equal to 17 or >= 2^63",
 			"GetBlockHeaders answers are compared with a reference traversal only where the handler's arithmetic does not wrap (skip < 2^62, amount < 2^63) and below the harness-built stable head; beyond that only authenticity (every header is one this harness built) is demanded",
 		},
 	})
@@ -131,6 +155,10 @@ func TestReplay(t *testing.T) {
 		var c subCase
 		json.Unmarshal(b, &c)
 		runSubCase(fail, c)
+	case probe["disc_reason"] != nil:
+		var c discReasonCase
+		json.Unmarshal(b, &c)
+		runDiscReasonCase(fail, c, 0)
 	default:
 		t.Fatalf("unknown case kind in %s", p)
 	}
